@@ -3,11 +3,11 @@ CONSTANTS
   Ctors <- BothCtors
   NameTokens <- TokQ
   MaxName = 4
-  FixedNames <- NamesForFs
+  FixedNames <- NamesForFsMid
   FmtTokens <- FTokQ
   MaxFmt = 3
   Heads <- HeadEq
-  OptParts <- OptsFew
+  OptParts <- OptsTwo
   MaxOpts = 1
   AllowNoFs = TRUE
   Setters <- NoneSet
